@@ -22,7 +22,7 @@ RULE = ('file names = product of segment kinds {file names in root, subdir, ., .
         'from a path wildcard. Non-trivial = the name contains a dot-dot, an absolute prefix, a backslash or a sibling name; '
         'distinct = distinct (root spelling, filename).')
 PYOPT = {'quick': 1, 'thorough': 1}     # one unit of every kind is also served by an interpreter started with -O (assert statements compiled out)
-REQUIRED = ['units_run_under_python_-O', 'names_that_are_not_text', 'names_of_more_than_64_segments', 'relative_root_after_chdir', 'head_requests', 'probes_after_serving_another_root', 'served_200', 'denied_403', 'missing_404', 'opens_observed', 'names_with_dotdot', 'names_with_backslash',
+REQUIRED = ['units_run_under_python_-O', 'calls_in_a_walk_over_root_spellings', 'calls_with_a_root_that_does_not_exist', 'names_that_are_not_text', 'names_of_more_than_64_segments', 'relative_root_after_chdir', 'head_requests', 'probes_after_serving_another_root', 'served_200', 'denied_403', 'missing_404', 'opens_observed', 'names_with_dotdot', 'names_with_backslash',
             'names_absolute', 'names_sibling_prefix', 'served_content_compared', 'via_wsgi']
 EXHAUSTIVE = {'quick': False, 'thorough': False,
               'quick_note': 'the product units enumerate the name product for <=2 segments completely', 'thorough_note': 'the product units enumerate the name product for <=3 segments completely'}
@@ -290,6 +290,28 @@ def history_unit(ctx, unit):
                         check_call(ctx, static_file, audit, base, files, real_1, r1, r1, name, wit)
                         check_head(ctx, static_file, base, files, real_1, r1, r1, name, wit)
                         ctx.count('relative_root_after_chdir')
+        # a long walk over many roots in many absolute spellings (two spellings of one directory are two strings), some of
+        # them directories that do not exist: the root of a call is the one given to that call, whatever was served before
+        os.chdir(base)
+        dirs = ['www', 'www2', 'www-private', 'www/sub', 'alt/www', 'gone', 'www-missing', 'www/sub/nothing-here']
+        pool = []
+        for d in dirs:
+            a = os.path.join(base, d)
+            pool += [(d, a), (d + '/', a + '/'), (d + '//', a + '//'), (d + '/.', a + '/.')]
+        rels = ['a.txt', 'index.html', 'b.txt', 'sub/b.txt', 'deep/c.bin', 'secret.txt', 'only-alt.txt', '../www/a.txt', '../www2/a.txt', '../a.txt', '../other/a.txt', 'nope']
+        rng = ctx.rng
+        walk = []
+        for step in range(unit.get('walk', 2500)):
+            rname, root = rng.choice(pool) if rng.random() < 0.8 or not walk else walk[-1 - rng.randrange(min(len(walk), 3))]
+            walk.append((rname, root))
+            name = rng.choice(rels)
+            real = os.path.realpath(root)
+            ctx.case(('walk', step, rname, name), nontrivial=True)
+            wit = {'unit': {'kind': 'note', 'roots_of_the_calls_before (last 8)': [w[0] for w in walk[-9:-1]], 'root': rname, 'name': name}}
+            check_call(ctx, static_file, audit, base, files, real, rname, root, name, wit)
+            ctx.count('calls_in_a_walk_over_root_spellings')
+            if not os.path.isdir(real):
+                ctx.count('calls_with_a_root_that_does_not_exist')
     finally:
         os.chdir(cwd)
         shutil.rmtree(base, ignore_errors=True)
@@ -300,7 +322,7 @@ def plan(tier, seed):
     shards = 4 if tier == 'quick' else 32
     units = [{'kind': 'product', 'maxseg': maxseg, 'shard': i, 'shards': shards} for i in range(shards)]
     units.append({'kind': 'wsgi', 'n': 400 if tier == 'quick' else 5000})
-    units.append({'kind': 'history'})
+    units.append({'kind': 'history', 'walk': 2500 if tier == 'quick' else 40000})
     return units
 
 
